@@ -248,6 +248,7 @@ namespace ratio
         reason.emplace(&atm, af);
 
         // we check if we need to notify the new atom to any smart types..
+        bool notified = false;
         if (&atm.get_type().get_scope() != this)
         {
             std::queue<type *> q;
@@ -255,11 +256,24 @@ namespace ratio
             while (!q.empty())
             {
                 if (smart_type *st = dynamic_cast<smart_type *>(q.front()))
+                {
                     st->new_atom(*af);
+                    notified = true;
+                }
                 for (const auto &st : q.front()->get_supertypes())
                     q.push(st);
                 q.pop();
             }
+        }
+
+        if (is_fact && !notified && (is_impulse(atm) || is_interval(atm)))
+        { // goals apply the impulse/interval rule through their own rule, smart types apply it to their facts: here we apply it to the facts of plain predicates whenever they become active..
+            set_ni(lit(atm.get_sigma()));
+            if (is_impulse(atm))
+                get_impulse().apply_rule(atm);
+            else
+                get_interval().apply_rule(atm);
+            restore_ni();
         }
     }
 
